@@ -311,3 +311,16 @@ pub fn walk_args<'a, F: FnMut(&'a ast::Method, &'a ast::Arg)>(ast: &'a ast::Aidl
         ast::Item::Enum(_) => (),
     }
 }
+
+/// Verification hooks: add-only wrappers around the private helpers.
+#[cfg(feature = "verif-hooks")]
+pub mod verif {
+    use super::*;
+
+    pub fn range_contains(range: &ast::Range, line_col: (usize, usize)) -> bool {
+        super::range_contains(range, line_col)
+    }
+    pub fn walk_types_mut<F: FnMut(&mut ast::Type)>(ast: &mut ast::Aidl, f: F) {
+        super::walk_types_mut(ast, f)
+    }
+}
